@@ -677,6 +677,11 @@ def unusual_case(v, which, N):
         lazy = False
         df = v.frame([("a", "float"), ("b", "int")], N, labels="l")
         schema = pa.DataFrameSchema({"a": pa.Column(float, nullable=True), "b": pa.Column(int)}, unique=["a", "b"])
+    elif which == "multiindex_joint_unique":  # uniqueness over the levels of a MultiIndex: a violation means duplicated row labels
+        lazy = bool(v.choice("lazy", [False, True]))
+        df = v.mi_frame([("a", "float")], N, levels=[("k0", "l"), ("k1", "m")])
+        schema = pa.DataFrameSchema({"a": pa.Column(float, nullable=True)},
+                                    index=pa.MultiIndex([pa.Index(int, name="k0"), pa.Index(int, name="k1")], unique=["k0", "k1"]))
     elif which == "wide_check_dup_labels":
         df = v.frame([("a", "float", False), ("b", "int")], N, labels="l")
         schema = pa.DataFrameSchema({"a": pa.Column(float), "b": pa.Column(int)}, checks=Check(lambda d: d["a"] >= d["b"]))
@@ -716,7 +721,7 @@ def unusual_case(v, which, N):
 
 UNUSUAL = ("drop_dtype_error_frame", "drop_dtype_error_series", "drop_dtype_error_column", "drop_missing_column", "drop_scalar_check",
            "drop_rows_then_dtype_error", "drop_rows_then_scalar_df_check",
-           "lazy_joint_unique_dup_labels", "eager_joint_unique_dup_labels", "wide_check_dup_labels", "strict_regex", "regex_no_match",
+           "lazy_joint_unique_dup_labels", "eager_joint_unique_dup_labels", "multiindex_joint_unique", "wide_check_dup_labels", "strict_regex", "regex_no_match",
            "wrong_kind_check_arg", "unique_nullable_drop")
 
 
@@ -1152,7 +1157,7 @@ def drop_case(v, shape, N, opts):
         arr = [("a", a_kind), ("b", "int")]
         obj = v.frame(arr, N, labels="l", distinct_labels=True)
         schema = pa.Column(float, Check.ge(lo), nullable=nullable, unique=unique_a, report_duplicates=rd, coerce=coerce, name="a", drop_invalid_rows=True)
-    elif shape in ("frame", "frame_wide", "frame_wide3", "frame_joint", "frame_sets", "frame_nfc", "frame_index", "model"):
+    elif shape in ("frame", "frame_wide", "frame_wide3", "frame_joint", "frame_sets", "frame_nfc", "frame_nested", "frame_index", "model"):
         arr = [("a", a_kind), ("b", "int")]
         # frame_wide: the dataframe-level check compares a with b; its treatment of null rows is C19's subject, so a is null-free here
         # frame_wide3: a third, nullable column that the check does not look at (its nulls must not shield a failing row)
@@ -1186,7 +1191,10 @@ def drop_case(v, shape, N, opts):
                      "b": pa.Column(int, Check.isin([1, 2, 3]))}
             if shape == "frame_wide3":
                 cols_["c"] = pa.Column(float, nullable=True)
-            schema = pa.DataFrameSchema(cols_, drop_invalid_rows=True, **kw)
+            if shape == "frame_nested":  # the flag is set on the column inside the frame schema, not on the frame schema; b is unconstrained
+                cols_ = {"a": pa.Column(float, Check.ge(lo), nullable=nullable, unique=unique_a, report_duplicates=rd, coerce=coerce, drop_invalid_rows=True),
+                         "b": pa.Column(int)}
+            schema = pa.DataFrameSchema(cols_, drop_invalid_rows=shape != "frame_nested", **kw)
     snap = H.snapshot(obj)
     o = H.outcome(lambda: schema.validate(obj, lazy=True))
     cells = {c: v.cells(f"{c}_", k, N, k in ("float", "str", "Int") and not (shape.startswith("frame_wide") and c == "a")) for c, k in arr}
@@ -1196,7 +1204,7 @@ def drop_case(v, shape, N, opts):
     dups = O.dup_rows(N, lambda i, j: O.eq_cell(xa, na, i, j), rd if shape != "model" else "all")
     for i in range(N):
         b = [z3.And(z3.Not(v.z(nullable)), na[i]), z3.And(v.z(unique_a), dups[i]), z3.And(z3.Not(na[i]), z3.Not(xa[i] >= v.z(lo)))]
-        if shape not in ("series", "column", "series_Int"):
+        if shape not in ("series", "column", "series_Int", "frame_nested"):
             xb, nb = cells["b"]
             b.append(z3.Not(z3.Or(xb[i] == 1, xb[i] == 2, xb[i] == 3)))
         if shape.startswith("frame_wide"):
